@@ -5,7 +5,7 @@
    C04/Spec.v.  [final valid h] is the machine state after the history h (any sequence of
    kernel events and psutil calls, any number of generators advanced in any interleaving),
    [irun valid h] the same with the per-generator ghost records. *)
-From PV Require Import C04.Spec C04.Proofs C04.ProofsTable C04.ProofsIter C04.ProofsStale C04.Legacy.
+From PV Require Import C04.Spec C04.Proofs C04.ProofsTable C04.ProofsIter C04.ProofsStale C04.ProofsExact C04.Legacy.
 
 (* ---- text level ---- *)
 
@@ -76,23 +76,42 @@ Print Assumptions C04_pid_exists_false.
 
 (* ---- generators ---- *)
 
-(* what any generator has yielded so far (yields are kept newest first): strictly ascending
-   PIDs without duplicates; each PID was listed when the body was entered; the object is the
-   cached one (only possible when the PID was cached and not marked as reused) or one created after
-   the body was entered (C04_visit_cached says when: no entry, or the cached instance carries the reused flag); with attrs=l every name is valid and the info keys are exactly l (all
-   names for l = []) *)
+(* the next() that yields, exactly: the PID's cached object iff the PID was cached when the body was
+   entered (then it was not marked as reused) and that object does not carry the reused flag now;
+   in every other case (no entry, or flagged instance: b70d950) an object made in this very next() *)
+Theorem C04_yield_exact : forall valid h g p o i,
+  let s := fst (irun valid h) in
+  let G := snd (irun valid h) in
+  snd (step valid s (IterNext g)) = OYield p o i ->
+  let gh1 := if gh_started (G g) then G g else gh_enter s (G g) in
+  match dget p (gh_cache gh1) with
+  | Some o' => ~ In p (gh_marked gh1) /\ (if o_reused (heap s o') then (nobj s <= o)%nat else o = o')
+  | None => (nobj s <= o)%nat
+  end.
+Proof. exact yield_exact. Qed.
+Print Assumptions C04_yield_exact.
+
+(* what any generator has yielded so far (newest first), with the same exactness threaded through the
+   ghost state ([gh_repl] = yielded PIDs whose cached object carried the reused flag at that next()):
+   strictly ascending PIDs without duplicates, each listed when the body was entered; cached and not
+   replaced => the cached object; cached and replaced, or not cached => an object created after entry;
+   a cached PID that was marked at entry is never yielded; with attrs=l every name is valid and the info
+   keys are exactly l (all names for l = []) *)
 Theorem C04_iter_yields : forall valid h g,
   let gh := snd (irun valid h) g in
   StronglySorted Z.gt (map ypid (gh_yields gh)) /\
+  (forall p, In p (gh_repl gh) -> In p (map ypid (gh_yields gh))) /\
   forall p o i, In (p, o, i) (gh_yields gh) ->
     In p (gh_list gh) /\
-    ((dget p (gh_cache gh) = Some o /\ ~ In p (gh_marked gh))
-     \/ (gh_heap0 gh <= o)%nat) /\
+    match dget p (gh_cache gh) with
+    | Some o' => ~ In p (gh_marked gh) /\ (if zmem p (gh_repl gh) then (gh_heap0 gh <= o)%nat else o = o')
+    | None => (gh_heap0 gh <= o)%nat /\ zmem p (gh_repl gh) = false
+    end /\
     match gh_attrs gh with
     | None => True
     | Some l => attrs_valid valid l = true /\ i = Some (spec_keys valid l)
     end.
-Proof. exact iter_yields. Qed.
+Proof. exact iter_yields_exact. Qed.
 Print Assumptions C04_iter_yields.
 
 (* a generator that ran to StopIteration: every PID listed when it was entered was yielded, or
@@ -141,18 +160,20 @@ Print Assumptions C04_iter_exceptions.
 (* when a generator finishes (exhaustion, close(), exception) the cache becomes: only PIDs that
    were listed when it was entered (entries of PIDs that went away are dropped), each mapped
    to the object cached at that time if it was not marked as reused, else to an object created
-   since (marked entries are refreshed or gone); and it holds every object the generator yielded *)
+   since (marked entries are refreshed or gone); it holds every object the generator yielded; and a PID that
+   was cached and marked at entry has no entry at all (it gets a new object in the next iteration) *)
 Theorem C04_cache_after_finish : forall valid h e g,
   let sg := irun valid h in
   let r := istep valid sg e in
   let gh' := snd (fst r) g in
   let cache' := pmap (fst (fst r)) in
   gh_done (snd sg g) = false -> gh_done gh' = true -> gh_started gh' = true ->
-  snd r <> OOom -> tbl (fst sg) <> [] ->
+  snd r <> OOom -> (tbl (fst sg) <> [] \/ snd r = OStop) ->
   (forall p o, dget p cache' = Some o ->
      In p (gh_list gh') /\
      ((dget p (gh_cache gh') = Some o /\ ~ In p (gh_marked gh')) \/ (gh_heap0 gh' <= o)%nat)) /\
-  (forall p o i, In (p, o, i) (gh_yields gh') -> dget p cache' = Some o).
+  (forall p o i, In (p, o, i) (gh_yields gh') -> dget p cache' = Some o) /\
+  (forall p, In p (gh_marked gh') -> (exists o, dget p (gh_cache gh') = Some o) -> dget p cache' = None).
 Proof. exact finish_installs. Qed.
 Print Assumptions C04_cache_after_finish.
 
@@ -276,3 +297,121 @@ Theorem C04_legacy_found_recycled_refuted :
     snd (step_legacy valid (runs_legacy valid s1 h1a) (IterNext g)) = OYield p x i.
 Proof. exact legacy_found_recycled_refuted. Qed.
 Print Assumptions C04_legacy_found_recycled_refuted.
+
+(* ---- the passed-over PIDs: exact class of the known finding process_iter-skips-recycled-pid ---- *)
+
+(* every listed PID of an exhausted generator was yielded or is in the ghost's passed-over list (PIDs in
+   the gap between two consecutive yields, or after the last, each with "was in the table at that
+   next()"); yielded and passed over are disjoint; whoever was passed over WHILE IN THE TABLE was cached
+   when the body was entered and either marked as reused or the attrs request ppid *)
+Theorem C04_iter_complete_exact : forall valid h g,
+  let gh := snd (irun valid h) g in
+  (gh_exhausted gh = true -> forall p, In p (gh_list gh) ->
+     In p (map ypid (gh_yields gh)) \/ In p (map fst (gh_passed gh))) /\
+  (forall p b, In (p, b) (gh_passed gh) ->
+     In p (gh_list gh) /\ ~ In p (map ypid (gh_yields gh)) /\
+     (b = true -> (exists o, dget p (gh_cache gh) = Some o) /\
+                  (In p (gh_marked gh) \/ req_ppid valid (gh_attrs gh) = true))).
+Proof. exact iter_complete_exact. Qed.
+Print Assumptions C04_iter_complete_exact.
+
+(* the exclusion as a decidable hypothesis (nobody passed over while in the table): then every listed PID
+   was yielded or was absent from the table at the next() that passed over it ... *)
+Theorem C04_iter_complete_decidable : forall valid h g,
+  let gh := snd (irun valid h) g in
+  gh_exhausted gh = true -> forallb (fun qb => negb (snd qb)) (gh_passed gh) = true ->
+  forall p, In p (gh_list gh) ->
+    In p (map ypid (gh_yields gh)) \/ In (p, false) (gh_passed gh).
+Proof. exact iter_complete_decidable. Qed.
+Print Assumptions C04_iter_complete_decidable.
+
+(* ... and the exact complement, for every member (not just a witness): a PID passed over while in the
+   table was listed when the body was entered and is never yielded by that generator *)
+Theorem C04_passed_alive_not_yielded : forall valid h g p,
+  let gh := snd (irun valid h) g in
+  In (p, true) (gh_passed gh) -> In p (gh_list gh) /\ ~ In p (map ypid (gh_yields gh)).
+Proof. exact passed_alive_not_yielded. Qed.
+Print Assumptions C04_passed_alive_not_yielded.
+
+(* first sub-class, exactly: a PID cached and marked as reused when the body is entered is NEVER yielded
+   by that generator (C04_cache_after_finish: and has no cache entry once it finished) *)
+Theorem C04_marked_never_yielded : forall valid h g p,
+  let gh := snd (irun valid h) g in
+  In p (gh_marked gh) -> (exists o, dget p (gh_cache gh) = Some o) -> ~ In p (map ypid (gh_yields gh)).
+Proof. exact marked_never_yielded. Qed.
+Print Assumptions C04_marked_never_yielded.
+
+(* ... and the iteration after that: a generator entered while the PID has no cache entry yields only a
+   new object for it, and when exhausted has yielded it unless it left the table meanwhile *)
+Theorem C04_uncached_fresh : forall valid h g p,
+  let gh := snd (irun valid h) g in
+  dget p (gh_cache gh) = None ->
+  (forall o i, In (p, o, i) (gh_yields gh) -> (gh_heap0 gh <= o)%nat) /\
+  (gh_exhausted gh = true -> In p (gh_list gh) -> In p (map ypid (gh_yields gh)) \/ In p (gh_vanished gh)).
+Proof. exact uncached_fresh. Qed.
+Print Assumptions C04_uncached_fresh.
+
+(* second sub-class, per visit, exactly: as_dict on a cached object of a PID that IS in the table raises
+   NoSuchProcess (and the PID is dropped) iff ppid is requested and the object is not the process that has
+   the PID now (gone flag, reused flag, or another start time) *)
+Theorem C04_ppid_drop_exact : forall t valid ru pid ob l k,
+  attrs_valid valid l = true -> find_proc t pid = Some k ->
+  (fst (fst (as_dict t valid ru pid ob l)) = Exc NoSuchProcess <->
+   req_ppid valid (Some l) = true /\ (o_gone ob = true \/ o_reused ob = true \/ k_start k <> o_start ob)).
+Proof. exact as_dict_nsp_exact. Qed.
+Print Assumptions C04_ppid_drop_exact.
+
+(* ---- object identity across successive process_iter() calls ---- *)
+
+(* PID p was yielded as object x by generator g1, which now runs to exhaustion (s1 = the state right
+   after).  hq: any events without cache_clear() and without a generator finishing (quiet_run; kernel
+   events, pids, pid_exists, is_running, new generators and yielding next() calls are all allowed); then the
+   body of g2 is entered while p is not marked; h3: any events at all, including other generators and
+   cache_clear().  If the table shows p with the start ticks of x throughout (steady_run) and x carried no
+   reused flag at s1, the next() of g2 that yields p yields the very same x. *)
+Theorem C04_same_object_next_iteration : forall valid h0 g1 p x i1 hq h3 g2 o i,
+  let sg0 := irun valid h0 in
+  let sg1 := irun valid (h0 ++ [IterNext g1]) in
+  let s1 := fst sg1 in
+  gh_done (snd sg0 g1) = false -> gh_exhausted (snd sg1 g1) = true -> gh_started (snd sg1 g1) = true ->
+  In (p, x, i1) (gh_yields (snd sg1 g1)) ->
+  o_reused (heap s1 x) = false ->
+  quiet_run valid s1 hq = true ->
+  let s2 := runs valid s1 hq in
+  is_freshb (gens s2 g2) = true -> ~ In p (reused s2) ->
+  (h3 = [] \/ exists h3', h3 = IterNext g2 :: h3') ->
+  steady_run valid p (o_start (heap s1 x)) s1 (hq ++ h3) = true ->
+  snd (step valid (runs valid s1 (hq ++ h3)) (IterNext g2)) = OYield p o i ->
+  o = x.
+Proof. exact same_object_next_iteration. Qed.
+Print Assumptions C04_same_object_next_iteration.
+
+(* the hypothesis "no generator finishes in between" cannot be dropped: two overlapping first iterations
+   each make their own object for a PID and the one that finishes last wins the cache *)
+Theorem C04_identity_overlap_refuted :
+  exists valid h0 g1 p x i1 hq g2 o i,
+    let sg0 := irun valid h0 in
+    let sg1 := irun valid (h0 ++ [IterNext g1]) in
+    let s1 := fst sg1 in
+    let s2 := runs valid s1 hq in
+    gh_done (snd sg0 g1) = false /\ gh_exhausted (snd sg1 g1) = true /\
+    In (p, x, i1) (gh_yields (snd sg1 g1)) /\ o_reused (heap s1 x) = false /\
+    is_freshb (gens s2 g2) = true /\ zmem p (reused s2) = false /\
+    steady_run valid p (o_start (heap s1 x)) s1 hq = true /\
+    forallb (fun e => match e with CacheClear => false | _ => true end) hq = true /\
+    quiet_run valid s1 hq = false /\
+    snd (step valid s2 (IterNext g2)) = OYield p o i /\ Nat.eqb o x = false.
+Proof. exact identity_overlap_refuted. Qed.
+Print Assumptions C04_identity_overlap_refuted.
+
+(* an entry whose PID had left the listing when a generator was entered is absent from the cache once that
+   generator has finished *)
+Theorem C04_cache_eviction : forall valid h e g p,
+  let sg := irun valid h in
+  let r := istep valid sg e in
+  let gh' := snd (fst r) g in
+  gh_done (snd sg g) = false -> gh_done gh' = true -> gh_started gh' = true ->
+  snd r <> OOom -> (tbl (fst sg) <> [] \/ snd r = OStop) ->
+  ~ In p (gh_list gh') -> dget p (pmap (fst (fst r))) = None.
+Proof. exact cache_eviction. Qed.
+Print Assumptions C04_cache_eviction.
